@@ -19,7 +19,8 @@ PROP = Property(
           '(b) built-in text payloads (lines over an alphabet that over-represents 0x1F/0x20/0x7E/0x7F, quotes, '
           'colons, backslashes, tabs and multi-byte UTF-8), (c) every fallback: hexdump-only and unknown section '
           'types, no parser module for the creator/component, parser modules disabled, fixture parser raising one of '
-          '9 exception kinds or returning None, other built-in subtypes - payloads of any bytes, length 1..512 '
+          '9 exception kinds or returning None, other built-in subtypes, near misses of the built-in key (creator in the '
+          'other case / a neighbouring character, component a bit away) carrying good JSON / text - payloads of any bytes, length 1..512 '
           '(..65 527 in thorough). Oracle: JSON value / replaced text lines shown exactly; for every fallback the '
           'section is present and an independent reader recovers the payload byte-for-byte from its Data lines, '
           'with an Error note when a parser failed. Non-trivial = payload length not a multiple of 16 or containing '
@@ -197,7 +198,14 @@ def payload_st(tier):
 
 
 FALLBACKS = ['raw-named', 'raw-unknown', 'no-module', 'plugins-off', 'raises', 'returns-none',
-             'builtin-other-subtype', 'plugins-off-with-module', 'builtin-not-utf8', 'import-fails']
+             'builtin-other-subtype', 'plugins-off-with-module', 'builtin-not-utf8', 'import-fails',
+             'builtin-lookalike']
+
+# near misses of the built-in key (creator 'O', component 0x2000): same letter in the other case, neighbouring
+# characters, components one bit / one digit away.  None of them has the built-in formats, so the payload -
+# chosen to be perfectly good JSON / text - must be hex dumped
+LOOKALIKE_CREATORS = [ord(c) for c in 'o0NPQ@_']
+LOOKALIKE_COMPS = [0x2001, 0x2100, 0x0020, 0x2002, 0x3000, 0x1FFF, 0xA000]
 
 
 @st.composite
@@ -220,6 +228,15 @@ def fallback_case(draw, tier):
         c['id'] = draw(S.unknown_id)
     elif fb == 'builtin-other-subtype':
         c['sub'] = draw(st.one_of(st.sampled_from([2, 4, 0, 5, 255]), st.integers(4, 255)))
+    elif fb == 'builtin-lookalike':
+        if draw(st.booleans()):
+            c['creator'], c['comp'] = draw(st.sampled_from(LOOKALIKE_CREATORS)), 0x2000
+        else:
+            c['creator'], c['comp'] = BMC, draw(st.sampled_from(LOOKALIKE_COMPS))
+        c['sub'] = draw(st.sampled_from([1, 3, 1, 3, 2, 4]))
+        c['payload'] = draw(st.sampled_from([b'{"Key": "value", "N": 7}', b'[1, 2, 3]', b'plain text\nsecond line',
+                                             b'  padded text \x00\x00', b'"just a string"', b'{}', b'7']))
+        c['lookalike_plugins'] = draw(st.booleans())
     elif fb == 'builtin-not-utf8':
         # built-in JSON / text format whose payload is not valid UTF-8: neither JSON nor text
         c['sub'] = draw(st.sampled_from([1, 3]))
@@ -242,6 +259,8 @@ def fallbacks(case, note):
     if case['kind'] == 'ED' and len(payload) > 65523:
         payload = payload[:65523]
     plugins = fb not in ('plugins-off', 'plugins-off-with-module')
+    if fb == 'builtin-lookalike':
+        plugins = case['lookalike_plugins']
     spec = {}
     expect_error = False
     if fb in ('raw-named', 'raw-unknown'):
